@@ -1,5 +1,6 @@
 import Treepath.Model.Descr
 import Treepath.Proofs.MutateLemmas
+import Treepath.Proofs.NaturalNext
 /- C18 — descriptors are thin views over the wrapped document.
 Most statements here are definitional unfoldings of a small model (said so in DESIGN.md);
 the correspondence run carries the weight for this property. -/
@@ -51,5 +52,23 @@ theorem mprop_read (stepsOf : Heap → List (Step Val)) (h : Heap) (data : Val) 
 
 theorem pprop_assign_cascades (stepsOf : Heap → List (Step Val)) (h : Heap) (data v : Val) :
     ppropSet stepsOf h data v = setMatch stepsOf (.doc data) true h v := rfl
+
+/-- reading an attribute with the default getter, against the definition: the value the
+descriptor hands to `to_wrapped_value` is the object-store value at the location of the
+definition's first result on the unfolded document, and it unfolds to that result's value —
+for a typed attribute: the nested document wraps that very node -/
+theorem attr_read_is_the_definitions_first (stepsOf : Heap → List (Step Val)) (h : Heap) (data : Val) (j : J)
+    (hu : Unf h data j) (sb : Array (Step J)) (hsteps : LRel (StepRel (Unf h)) (stepsOf h) sb.toList)
+    (hp : PredsClean sb) (v : Val) (hg : descrGet .get stepsOf h data = .ok (.value v)) :
+    ∃ m', (evalE sb.toList (.root j)).1.head? = some m' ∧ Unf h v m'.data := by
+  simp only [descrGet] at hg
+  split at hg
+  · rename_i m hm
+    simp only [Except.ok.injEq, DOut.value.injEq] at hg
+    subst hg
+    obtain ⟨m', hrel, hhead⟩ := getMatch_heap_found h data j hu (stepsOf h).toArray sb (by simpa using hsteps) hp true m hm
+    exact ⟨m', hhead, hrel.data⟩
+  · simp at hg
+  · simp at hg
 
 end Treepath.C18
